@@ -13,7 +13,7 @@ from typing import Any
 from vlib import core, gen, otelgen, puml
 
 PROP = "C14"
-WF_NAMES = ["wfA", "wf B", "wfC", "wf-D"]
+WF_NAMES = ["wfA", "wf B", "wfC", "wf-D", "rev [a]", "rev a", "wf [v2]", "w(f)"]
 CUSTOM = {"jobId": "job_id_x", "eventId": "event id", "timestamp": "ts", "previousEventIds": "prev",
           "applicationName": "app", "jobName": "job-name", "eventType": "type"}
 
@@ -43,6 +43,43 @@ def _in_memory(cfg_path: str, mem_db: str) -> dict[str, dict[str, dict[str, dict
                 e = _canon_pv(e)
                 jobs.setdefault(e["jobId"], {})[e["eventId"]] = e
     return out
+
+
+def _handed_to_learner_by_otel2puml(cfg_path: str, outdir: str) -> tuple[dict, str | None]:
+    """The job streams the otel2puml dispatcher hands to the learner, observed in-process by
+    teeing pv_streams_to_puml_files inside tel2puml.otel_to_puml (the real otel_to_puml runs)."""
+    import yaml
+    import tel2puml.otel_to_puml as o2p
+    from tel2puml.otel_to_pv.config import IngestDataConfig
+    with open(cfg_path) as fh:
+        cfg = yaml.safe_load(fh)
+    cfg["data_holders"]["sql"]["db_uri"] = "sqlite:///:memory:"
+    captured: dict[str, dict[str, dict[str, dict]]] = {}
+    real = o2p.pv_streams_to_puml_files
+
+    def tee(pv_streams, *args, **kwargs):  # noqa: ANN001, ANN002, ANN003
+        def gen():  # noqa: ANN202
+            for job_name, streams in pv_streams:
+                jobs = [[dict(e) for e in st] for st in streams]
+                dst = captured.setdefault(job_name, {})
+                for j in jobs:
+                    for e in j:
+                        c = _canon_pv(e)
+                        dst.setdefault(c["jobId"], {})[c["eventId"]] = c
+                yield job_name, (list(j) for j in jobs)
+        return real(gen(), *args, **kwargs)
+    o2p.pv_streams_to_puml_files = tee
+    err = None
+    try:
+        o2p.otel_to_puml(
+            otel_to_pv_options={"config": IngestDataConfig(**cfg), "ingest_data": True,
+                                "save_events": False, "find_unique_graphs": False},
+            components="otel2puml", output_file_directory=outdir)
+    except Exception as exc:  # noqa: BLE001
+        err = f"{type(exc).__name__}: {exc}"[:300]
+    finally:
+        o2p.pv_streams_to_puml_files = real
+    return captured, err
 
 
 def _loaded_by_pv2puml(folder: str, job_name: str, mapping: dict | None) -> dict[str, dict]:
@@ -145,6 +182,24 @@ def run_routes(case: dict) -> dict:
             if not keys <= set(mapping.values()):
                 out["violations"].append({"symptom": "saved-pv-keys-not-renamed",
                                           "detail": {"keys": sorted(keys)}})
+        # ---- what the dispatcher hands to the learner on the otel2puml route ---------------
+        handed, herr = _handed_to_learner_by_otel2puml(cfg_a, os.path.join(wd, "outA_inproc"))
+        out["jobs_handed_to_learner"] = sum(len(j) for j in handed.values())
+        if herr and ra["rc"] == 0:
+            out["violations"].append({"symptom": "otel2puml-in-process-raises",
+                                      "detail": {"exc": herr}})
+        elif not herr and handed != mem:
+            d2: dict[str, Any] = {}
+            for wfn in sorted(set(handed) | set(mem)):
+                a_, b_ = handed.get(wfn, {}), mem.get(wfn, {})
+                if a_ != b_:
+                    d2[wfn] = {"jobs_only_in_stream": sorted(set(b_) - set(a_))[:5],
+                               "jobs_only_handed": sorted(set(a_) - set(b_))[:5],
+                               "jobs_changed": sorted(j for j in set(a_) & set(b_)
+                                                      if a_[j] != b_[j])[:5]}
+            out["violations"].append({
+                "symptom": "otel2puml-hands-learner-other-jobs-than-the-pv-stream",
+                "detail": d2})
         # ---- expected jobs from the generator (observation) --------------------------------
         gen_ok = True
         for wfn, runs in expected_jobs.items():
@@ -342,6 +397,7 @@ def main(tier: str, seed: int) -> int:
         chk.note_inconclusive(n)
     obs = {"cases": 0, "cli_process_runs": 0, "workflows_compared": 0, "equal_by_normal_form": 0,
            "equal_by_language": 0, "both_fail": 0, "jobs_compared_saved_vs_memory": 0,
+           "jobs_handed_to_learner_compared": 0,
            "events_compared_saved_vs_memory": 0, "pv_jobs_match_generator": 0,
            "diagram_equivalent_to_source_definition": 0, "diagram_not_equivalent_to_source": 0,
            "route_a_failed": 0}
@@ -353,6 +409,7 @@ def main(tier: str, seed: int) -> int:
         obs["cases"] += 1
         obs["cli_process_runs"] += r["cli_runs"]
         obs["jobs_compared_saved_vs_memory"] += r.get("jobs_in_memory", 0)
+        obs["jobs_handed_to_learner_compared"] += r.get("jobs_handed_to_learner", 0)
         obs["events_compared_saved_vs_memory"] += r.get("events_in_memory", 0)
         obs["pv_jobs_match_generator"] += 1 if r.get("pv_jobs_match_generator") else 0
         obs["route_a_failed"] += 1 if r.get("route_a_failed") else 0
